@@ -48,6 +48,8 @@ fn eval(op: &str, args: &[&str]) -> Option<Vec<String>> {
         "tls" => tlsop::tls(args),
         "pool" => poolop::pool(args),
         "wstall" => poolop::wstall(args),
+        "ctor" => tlsop::ctor(args),
+        "racc" => c15::racc(args),
         "cstall" => poolop::cstall(args),
         "shut" => shutop::shut(args),
         "transports" => c18::transports(args),
